@@ -525,6 +525,7 @@ pub fn enabled(w: &RouterWorld, cfg: &Cfg) -> Vec<(Act, u8)> {
         "C03" => enabled_c03(w, cfg, &mut v),
         "C20" => enabled_c20(w, cfg, &mut v),
         "C19" => enabled_c19(w, cfg, &mut v),
+        "C12" => enabled_c12(w, cfg, &mut v),
         _ => {}
     }
     manual_actions(w, cfg, &mut v);
@@ -1029,6 +1030,27 @@ fn enabled_c20(w: &RouterWorld, cfg: &Cfg, v: &mut Vec<(Act, u8)>) {
         }
     }
     ack_actions(w, &[2, 3], v);
+}
+
+/// C12 (broker routing): which filters a topic's publishes are appended to is decided by the
+/// broker's `matches()` through `DataLog::matches`, a cache per topic that is filled on the
+/// first publish and patched on every new filter. c0 publishes on every topic, c2 subscribes
+/// the filter under test, c3 subscribes `#`-like filter 1 — in every order.
+fn enabled_c12(w: &RouterWorld, cfg: &Cfg, v: &mut Vec<(Act, u8)>) {
+    if live(w, 0) && w.model.accepted.len() < 12 {
+        for t in 0..cfg.topics.len() as u8 {
+            v.push((Act::Pub { c: 0, t, qos: 0, retain: false, empty: false, props: 0 }, 0));
+        }
+    }
+    for (c, f) in [(2u8, 0u8), (3u8, 1u8)] {
+        if live(w, c) && (f as usize) < cfg.filters.len() {
+            if active_sub(w, c, &cfg.filters[f as usize]) {
+                v.push((Act::Unsub { c, f }, 0));
+            } else {
+                v.push((Act::Sub { c, f, qos: 0 }, 0));
+            }
+        }
+    }
 }
 
 /// C19 (router part): connect / disconnect / takeover histories against small limits
